@@ -1195,6 +1195,10 @@ func c09CapCorpus() []c09Corpus {
 		{"caps.mixed_batch.two_connected_two_new", cat([]c09Op{cAdd(1, C, 1, 2), cSet(1, 900, 1, 2, 3, 4)}, obs(1), []c09Op{cAdv(1), cAdd(1, 900, 5)}, obs(1), []c09Op{cAdv(900), cGC()}, obs(1))},
 		{"caps.batch_larger_than_cap", cat([]c09Op{cAdd(1, 120, 1, 2, 3)}, obs(1), []c09Op{cAdv(1), cAdd(1, 900, 4, 5)}, obs(1), []c09Op{cGC()}, obs(1))},
 		{"caps.never_connected_one_by_one", cat([]c09Op{cAdd(1, 120, 1), cAdv(1), cAdd(1, 900, 2), cAdv(1), cSet(1, 3600, 3), cAdv(1), cCon(1, 1, 900, 4)}, obs(1), []c09Op{cAdv(1), cAdd(1, 120, 5)}, obs(1), []c09Op{cGC()}, obs(1))},
+		// the cap's victim is named again later in the same batch (the batch fits under a cap of 2):
+		// the address named last was assigned last, so it must be returned
+		{"caps.victim_renamed_in_same_batch.add", cat([]c09Op{cAdd(1, 3600, 1), cAdd(1, 7200, 2), cAdd(1, 10800, 3, 1)}, obs(1), []c09Op{cAdv(1), cGC()}, obs(1))},
+		{"caps.victim_renamed_in_same_batch.set", cat([]c09Op{cAdd(1, 900, 1), cAdv(1), cAdd(1, 900, 2), cAdv(1), cSet(1, 120, 3, 3, 1)}, obs(1), []c09Op{cAdv(119)}, obs(1), []c09Op{cAdv(1), cGC()}, obs(1))},
 		{"caps.update_connected_to_finite_then_insert", cat([]c09Op{cAdd(1, C, 1, 2, 3), cUpd(1, C, 900)}, obs(1), []c09Op{cAdv(1), cAdd(1, 120, 4)}, obs(1), []c09Op{cAdv(1), cAdd(1, 120, 5)}, obs(1), []c09Op{cGC()}, obs(1))},
 	}
 }
@@ -1293,6 +1297,99 @@ func c09CapHistory(r *verifh.Rand, nP, nA int64, out *verifh.Out) []c09Op {
 		ops = append(ops, cAddrs(p))
 		if r.Chance(1, 3) {
 			ops = append(ops, cPeers(), cRec(p))
+		}
+	}
+	for p := int64(1); p <= nP; p++ {
+		ops = append(ops, cAddrs(p))
+	}
+	return append(ops, cGC(), cPeers())
+}
+
+// c09CapRenameHistory aims at the cap's eviction step inside ONE batch: the peer's cap is filled by
+// single insertions one second apart (no expiry ties, so the stored set and the entry with the
+// nearest expiry are known), then one AddAddrs/SetAddrs batch that fits under the cap names one
+// or more NEW addresses and, after them, the stored entry with the nearest expiry (the victim the
+// cap evicts to make room), possibly other stored entries too and repeated names; Addrs is read
+// right after, one second before the batch's deadline and on it.  The weak monitor's "the most
+// recent assignment is kept" clause judges the reads.
+func c09CapRenameHistory(r *verifh.Rand, pc, nP, nA int64, out *verifh.Out) []c09Op {
+	var ops []c09Op
+	fin := []int64{120, 900, 3600}
+	rounds := 1 + r.Intn(3)
+	for round := 0; round < rounds; round++ {
+		p := 1 + int64(r.Intn(int(nP)))
+		ops = append(ops, cClr(p))
+		perm := make([]int64, nA)
+		for i := range perm {
+			perm[i] = int64(i + 1)
+		}
+		for i := len(perm) - 1; i > 0; i-- {
+			j := r.Intn(i + 1)
+			perm[i], perm[j] = perm[j], perm[i]
+		}
+		stored, rest := perm[:pc], perm[pc:]
+		if r.Chance(1, 4) && len(rest) > 1 { // an entry held by a connection: exempt from the cap
+			ops = append(ops, cAdd(p, c09TTLConn, rest[0]))
+			rest = rest[1:]
+			out.Cover("caps.rename.with_connected_entry")
+		}
+		now, victim, soonest := int64(0), int64(0), int64(0)
+		for _, a := range stored {
+			t := fin[r.Intn(len(fin))]
+			ops = append(ops, cAdv(1), cAdd(p, t, a))
+			now++
+			if victim == 0 || now+t < soonest {
+				victim, soonest = a, now+t
+			}
+		}
+		if r.Chance(1, 3) {
+			d := int64(1 + r.Intn(100))
+			ops = append(ops, cAdv(d))
+			now += d
+		}
+		// the batch: new address(es) first, the victim after them, at most pc distinct names
+		nNew := 1
+		if pc >= 3 && len(rest) >= 2 && r.Bool() {
+			nNew = 2
+		}
+		batch := append([]int64{}, rest[:nNew]...)
+		if r.Chance(1, 4) {
+			batch = append(batch, rest[0]) // a new address named twice
+			out.Cover("caps.rename.new_named_twice")
+		}
+		if int64(nNew)+1 < pc && r.Bool() { // another stored entry, before the victim
+			for _, a := range stored {
+				if a != victim {
+					batch = append(batch, a)
+					break
+				}
+			}
+		}
+		batch = append(batch, victim)
+		t := fin[r.Intn(len(fin))]
+		if r.Chance(1, 2) {
+			ops = append(ops, cAdd(p, t, batch...))
+			out.Cover("caps.rename.add_batch_new_then_victim")
+		} else {
+			ops = append(ops, cSet(p, t, batch...))
+			out.Cover("caps.rename.set_batch_new_then_victim")
+		}
+		ops = append(ops, cAddrs(p), cAdv(t-1), cAddrs(p), cAdv(1), cAddrs(p))
+		if r.Bool() {
+			ops = append(ops, cGC(), cPeers())
+		}
+		// a second batch on whatever is stored now: stored names in random order, last one arbitrary
+		l := append([]int64{}, perm...)
+		for i := len(l) - 1; i > 0; i-- {
+			j := r.Intn(i + 1)
+			l[i], l[j] = l[j], l[i]
+		}
+		k := 1 + r.Intn(int(pc))
+		t = fin[r.Intn(len(fin))]
+		if r.Bool() {
+			ops = append(ops, cAdv(1), cAdd(p, t, l[:k]...), cAddrs(p))
+		} else {
+			ops = append(ops, cAdv(1), cSet(p, t, l[:k]...), cAddrs(p))
 		}
 	}
 	for p := int64(1); p <= nP; p++ {
@@ -1447,6 +1544,17 @@ func TestVerifC09(t *testing.T) {
 		nP, nA := 1+int64(rr.Intn(2)), 3+int64(rr.Intn(3))
 		capRun("", c09CapHistory(rr, nP, nA, out), 1+int64(rr.Intn(3)), nP, nA)
 		out.Cover("histories.caps_directed")
+	}
+	nRen := 200
+	if thorough {
+		nRen = 1200
+	}
+	for h := 0; h < nRen; h++ {
+		rr := r.Fork()
+		pc := 2 + int64(rr.Intn(3))
+		nP, nA := 1+int64(rr.Intn(2)), pc+1+int64(rr.Intn(2))
+		capRun("", c09CapRenameHistory(rr, pc, nP, nA, out), pc, nP, nA)
+		out.Cover("histories.caps_victim_renamed")
 	}
 
 	// 3. reopen after every prefix (datastore-backed book): the history with a
